@@ -128,6 +128,54 @@ class Analyzer(object):
                     (isinstance(v, ast.Call) and isinstance(v.func, ast.Name) and (isinstance(fi.g.get(v.func.id), type) or v.func.id in ('dict', 'list', 'set')))
                 fresh[nm] = fresh.get(nm, True) and isfresh
 
+        # aliases: locals bound (anywhere in the function) to a part of a shared object (item, attribute, .get()/.values()/
+        # .items()/.setdefault() result, loop variable over it): writes through them are writes to the shared object
+        def root_loc(e):
+            first_attr = None
+            while True:
+                if isinstance(e, (ast.Subscript, ast.Attribute)):
+                    if isinstance(e, ast.Attribute):
+                        first_attr = e.attr
+                    e = e.value
+                elif isinstance(e, ast.Call) and isinstance(e.func, ast.Attribute) and e.func.attr in ('get', 'values', 'items', 'setdefault', '__getitem__'):
+                    e = e.func.value
+                    first_attr = None
+                elif isinstance(e, ast.Call) and isinstance(e.func, ast.Name) and e.func.id in ('iter', 'reversed', 'enumerate', 'zip', 'sorted_view') and e.args:
+                    e = e.args[0]
+                else:
+                    break
+            if not isinstance(e, ast.Name):
+                return None
+            nm = e.id
+            if nm in pmap:
+                return pmap[nm]
+            if nm == 'self' and fi.params and fi.params[0] == 'self':
+                return ('self', fi.cls.__name__ if fi.cls else '?', first_attr or '[]') if (shared_self and first_attr) else None
+            if nm in declared_global or is_module_obj(nm):
+                return ('global', fi.func.__module__, nm)
+            return None
+
+        def bind(t, loc):
+            ch = False
+            for tt in ([t] if isinstance(t, ast.Name) else [x for x in ast.walk(t) if isinstance(x, ast.Name)] if isinstance(t, (ast.Tuple, ast.List)) else []):
+                if tt.id in locals_ and tt.id not in pmap and tt.id != 'self':
+                    pmap[tt.id] = loc
+                    ch = True
+            return ch
+        changed = True
+        while changed:
+            changed = False
+            for n in ast.walk(fi.tree):
+                if isinstance(n, ast.Assign) and not isinstance(n.value, (ast.Constant, ast.Dict, ast.List, ast.Set)):
+                    loc = root_loc(n.value) if isinstance(n.value, (ast.Subscript, ast.Attribute, ast.Call)) else None
+                    if loc:
+                        for t in n.targets:
+                            changed |= bind(t, loc)
+                elif isinstance(n, (ast.For, ast.comprehension)):
+                    loc = root_loc(n.iter)
+                    if loc:
+                        changed |= bind(n.target, loc)
+
         def walk(node, in_lock):
             """yield (node, in_lock) for statements/expressions, tracking with-lock regions"""
             if isinstance(node, ast.With):
@@ -330,3 +378,35 @@ def verdicts(an):
             sites.append(dict(function=r['function'], file=r['file'], line=r['line'], location=r['location'], ok=False, kind='unprotected read',
                               why='reads a container that other threads modify under a lock without holding the lock (check-then-use can fail)', chain=[]))
     return sites
+
+
+def purity_sites(funcs, package_prefix='athlib'):
+    """write sites to shared (module-level / shared-instance) state reachable from `funcs`, other than a single publish of
+    a completely built object (lazy initialisation of immutable tables) or writes under a lock: the `modifies \\nothing`
+    clause of functions whose contract makes the answer a function of the arguments alone (a result memo keyed on part of
+    the input, an option mutating a shared table ... are rejected)"""
+    an = Analyzer(package_prefix)
+    for f in funcs:
+        an.analyze(f)
+    return [s for s in verdicts(an) if not s['ok']], an
+
+
+def frame_obligations(run, funcs, what='the functions under contract'):
+    """record one obligation per function: no rejected write site in its call graph"""
+    bad, an = purity_sites(funcs)
+    by = {}
+    for s in bad:
+        root = (s.get('chain') or [s['function']])[0]
+        by.setdefault(root, []).append(s)
+    for f in funcs:
+        q = f.__module__ + '.' + f.__qualname__
+        name = 'frame/%s-modifies-no-shared-state' % q
+        sites = by.get(q, [])
+        run.record(name, 'frame', 'refuted' if sites else 'proved', 'frame-analysis', 0.0, 'frames')
+        if sites:
+            s = sites[0]
+            run.violation(name, dict(call='write site %s:%d in %s (%s)' % (s['file'], s['line'], s['function'], s['location']), observed=s['why'],
+                                     required='the answer depends on the arguments only: no write to state shared between calls', sites=[dict(file=x['file'], line=x['line'],
+                                     function=x['function'], location=x['location'], why=x['why']) for x in sites[:4]], input=['frame', q],
+                                     solver='frame analysis'), False)
+    return bad
